@@ -45,7 +45,7 @@ Definition note_by_name (c : libcase) (name : string) : option note_in :=
 Definition model_update (tbl : bool) (c : libcase) (s : gstate) (name : string) : res gstate :=
   match note_by_name c name with
   | None => Panic "no such note"
-  | Some n => do bs <- ni_blocks n; update_state_v tbl s (key_from_file_name name) (ni_meta n) bs
+  | Some n => do bs <- ni_blocks n; update_state_v tbl s (key_name name) (ni_meta n) bs
   end.
 
 Definition model_state (tbl : bool) (c : libcase) : res gstate :=
@@ -176,7 +176,7 @@ End Scan.
 
 Definition scan_note (n : note_in) : list lblock :=
   match ni_blocks n with
-  | Ok bs => let k := key_from_file_name (ni_name n) in flat_map (scan_block k (key_parent k) false) bs
+  | Ok bs => let k := key_name (ni_name n) in flat_map (scan_block k (key_parent k) false) bs
   | Panic _ => []
   end.
 
@@ -222,7 +222,7 @@ Definition residual_for (sc : list lblock) (shadow : list (string * lrange)) (io
                                           (inb k (lb_keys b) || inb k (lb_raw b))) sc) o
   end.
 
-Definition note_keys (c : libcase) : list string := map (fun n => key_from_file_name (ni_name n)) (lc_notes c).
+Definition note_keys (c : libcase) : list string := map (fun n => key_name (ni_name n)) (lc_notes c).
 
 (* ---- known classes (decidable classifiers over the input) ---- *)
 
@@ -251,7 +251,7 @@ Fixpoint shadowed (sh : bool) (t : tree) {struct t} : list nat :=
   end.
 
 Definition shadow_ids (c : libcase) (name : string) : list nat :=
-  flat_map (fun o => if String.eqb (no_key o) (key_from_file_name name) then
+  flat_map (fun o => if String.eqb (no_key o) (key_name name) then
                        match no_tree o with Ok t => shadowed false t | Panic _ => [] end
                      else []) (lo_notes c).
 
